@@ -399,7 +399,7 @@ func (e *Evaluator) evalCaseMatch(value *Cell, exprs []Expr) (bool, map[string]*
 				continue
 			}
 
-			array := value.Value.Array
+			array := *value.Value.Array
 			if len(array) != len(ex.Items) {
 				continue
 			}
@@ -1054,7 +1054,7 @@ func (e *Evaluator) evalNestedStatement(stmt Statement) error {
 
 		switch iterable.Value.Tag {
 		case ValueArray:
-			for index, item := range iterable.Value.Array {
+			for index, item := range *iterable.Value.Array {
 				if indexLocal != nil {
 					indexLocal.Value = NewValue(index)
 				}
@@ -1148,7 +1148,7 @@ func (e *Evaluator) evalPatternRules(patternRules []*Rule) error {
 
 	switch e.root.Value.Tag {
 	case ValueArray:
-		for i, item := range e.root.Value.Array {
+		for i, item := range *e.root.Value.Array {
 			e.ruleRoot = item
 			e.stackTop.locals["$index"] = NewCell(NewValue(i))
 			if err := e.evalRules(patternRules); err != nil {
